@@ -1539,6 +1539,14 @@ class Executor:
             if lo is None or hi is None or lo < 0 or hi > 0:
                 return None
             return n - lo + hi  # hi <= 0 counts elements dropped at the end (assumes the list is at least that long)
+        if getattr(l, "parts", None) is not None and getattr(self, "exact_list_len", False):
+            # a concatenation a + b + c bound to a NEW name: its length is the sum of the parts' lengths (scenarios that ask
+            # for exact list lengths)
+            from .models import exact_list_len
+
+            r = exact_list_len(self, l)
+            if r is not None:
+                return r
         return app("listlen", l.lid, getattr(l, "version", 0))
 
     def _seq_len(self, p):
